@@ -198,12 +198,8 @@ func (s *segment) rebuildIndex() error {
 	s.Index.position = 0
 	s.Index.mu.Unlock()
 
-	// If log file is empty, we're done
-	if s.position == 0 {
-		return nil
-	}
-
-	// Scan the log file and rebuild index entries
+	// Scan the log file and rebuild index entries (none if the log file is
+	// empty; the index position is still finalized below).
 	var pos int64
 	headerBuf := make([]byte, msgSetHeaderLen)
 
